@@ -122,8 +122,11 @@ CHECKS = {
        "identifiers in use of two objects may differ arbitrarily and the results are EQUAL; so a reused object equals a fresh one after the "
        "CONNECT and every script yields equal events and return values (determinism); the allocator bounds are proved invariant under EVERY call "
        "(walk through all functions of the model), so this holds after every history of a freshly constructed object with no hypothesis on the "
-       "state. PARTIAL: the whole-trace comparison on the CONNACK(session not present) path is decided by the paired-run monitor (reused vs fresh "
-       "implementation object: events + full digest) and the correspondence.",
+       "state. THE CONNACK PATH (ScopeConnack): a CONNECT without Clean Start leaves two objects that agree on scope and options equal up to "
+       "the session, and the accepted CONNACK with Session Present = 0 then has EQUAL outcome on both — so a reused client told 'session not "
+       "present' equals a fresh object, with equal traces for every later script. Outside the theorems: traffic between that CONNECT and its "
+       "CONNACK (the old session is kept there by design). The implementation is judged by the paired-run monitor (reused vs fresh "
+       "implementation object: events + full digest), the quota stage and the correspondence.",
   ref="DESIGN.md §3 C10",
   note=CONN_NOTE + " Paired cases: the application releases the ids it holds before reusing the object; offline publishing is configured between connections.",
   technique="Coq all-states state-equality proofs (dead-at-connect) + determinism + paired-run differential monitor on two implementation objects"),
